@@ -112,8 +112,11 @@ class _STIXBase(collections.abc.Mapping):
             raise DependentPropertiesError(self.__class__, failed_dependency_pairs)
 
     def _check_object_constraints(self):
-        for m in self.get('granular_markings', []):
-            validate(self, m.get('selectors'))
+        # Only a defined 'granular_markings' property holds cleaned granular
+        # markings; on types without it, it is uninterpreted custom content.
+        if 'granular_markings' in self._properties:
+            for m in self.get('granular_markings', []):
+                validate(self, m.get('selectors'))
 
     def __init__(self, allow_custom=False, interoperability=False, **kwargs):
         cls = self.__class__
